@@ -38,7 +38,8 @@ Definition sk : string := "k".
 
 (* the fixture every request runs against (the harness builds exactly this) *)
 Definition fx0 : fixture :=
-  [ ("/buckets", true);
+  [ ("/", true);
+    ("/buckets", true);
     ("/buckets/b", true);
     ("/buckets/b/obj", false);
     ("/buckets/b/x", true);
@@ -112,19 +113,39 @@ Definition outside_all (al : list string) (p : string) : bool :=
 
 Definition related (a b : string) : bool := inside a b || inside b a.
 
+(* the path a call makes the STORE act on: the filer answers a lookup / delete of "/"
+   from its static root entry without a store call *)
+Definition store_effective (c : fcall) : option string :=
+  match c, effective c with
+  | GLookup _ _, Some e | GDelete _ _ _, Some e => if clean e =? "/" then None else Some e
+  | _, r => r
+  end.
+
 Definition check (c : case) : outcome :=
   match c with
   | CReq q i_calls i_store i_status i_changed i_leak =>
       let m_calls := map snd (calls fx0 q) in
       let cand := purge_candidates (q_bucket q) (q_keys q) in
-      let eff := flat_map (fun c => match effective c with Some e => [clean e] | None => [] end)
+      let eff := flat_map (fun c => match c, effective c with
+                                    | GCreate _ _ _, Some e => clean e :: map clean (create_parents e)
+                                    | _, Some e => [clean e]
+                                    | _, None => []
+                                    end)
                           (i_calls ++ cand)%list in
       let spaths := map (fun sp => clean (snd sp)) i_store in
       let al := allowed q in
-      let m_outside := existsb (outside_all al) (flat_map (fun c => match effective c with Some e => [e] | None => [] end) i_calls) in
+      let m_outside := existsb (outside_all al) (flat_map (fun c => match store_effective c with Some e => [e] | None => [] end) i_calls) in
       let i_outside := existsb (outside_all al) spaths in
+      (* an object route addressed the multipart area: a store path inside some
+         <bucket>/.uploads that is not merely swept up by a recursive delete that started
+         above the area *)
+      let in_up := fun p => existsb (fun a => inside (clean (uploads_dir a)) p) al in
+      let del_eff := flat_map (fun c => match c, effective c with
+                                        | Http MDelete _, Some e | GDelete _ _ true, Some e => [clean e]
+                                        | _, _ => []
+                                        end) i_calls in
       let obj_uploads := object_route (q_route q) &&
-                         existsb (fun p => existsb (fun a => inside (clean (uploads_dir a)) p) al) spaths in
+                         existsb (fun p => in_up p && negb (existsb (fun e => inside e p && negb (in_up e)) del_eff)) spaths in
       {| o_corr :=
            calls_match m_calls i_calls cand &&
            (* every store path is explained by a call: it is the call's effective path,
@@ -139,7 +160,7 @@ Definition check (c : case) : outcome :=
            Bool.eqb (negb (uploads_hidden fx0 q)) obj_uploads;
          o_prop := negb i_outside && negb i_changed && negb i_leak && negb obj_uploads;
          o_trig := if req_dotdot q then Some 0%N
-                   else if req_uploads_key q then Some 1%N
+                   else if req_uploads_seg q then Some 1%N
                    else None;
          o_nontrivial := (i_status =? 2)%N |}
   | CClean p dir name g_clean g_mux g_join g_dn g_base g_dir =>
